@@ -191,6 +191,29 @@ class Pool:
             it[2] = i
             return EnumV(0)
 
+        def iter_mut(I, a, p, c):
+            v = a[0].cell.v if isinstance(a[0], Ref) else a[0]
+            if isinstance(v, Slots):
+                return ["slot-iter-mut", v, 0]
+            raise Unsupported("iter_mut over %r" % (v,))
+
+        def filter_map(I, a, p, c):
+            return ["filter-map", a[0], a[1]]
+
+        def filter_map_next(I, a, p, c):
+            it = a[0].cell.v
+            inner, f = it[1], it[2]
+            while inner[2] < len(inner[1].cells):
+                cell = inner[1].cells[inner[2]]
+                inner[2] += 1
+                if isinstance(f, tuple) and f[0] == "opaque" and re.search(r"Option::<.*>::take$", f[1]):
+                    r = opt_take(I, [Ref(cell)], p, f[1])
+                else:
+                    r = yield from I.call_closure(f, [Ref(cell)], p)
+                if isinstance(r, EnumV) and r.variant == 1:
+                    return EnumV(1, [Cell(r.fields[0].v)])
+            return EnumV(0)
+
         def min_u32(I, a, p, c):
             x, y = a[0], a[1]
             return z3.If(z3.ULE(x, y), x, y)
@@ -218,6 +241,8 @@ class Pool:
             (r"^std::mem::take::<", mem_take),
             (r" as IntoIterator>::into_iter$", into_iter), (r" as Iterator>::flatten$|Iterator>::flatten$", flatten),
             (r"Flatten<.*> as Iterator>::next$", iter_next),
+            (r"slice::<impl \[.*\]>::iter_mut$|Vec::<.*>::iter_mut$", iter_mut),
+            (r" as Iterator>::filter_map::<", filter_map), (r"FilterMap<.*> as Iterator>::next$", filter_map_next),
             (r"<u32 as Ord>::min$|^core::cmp::Ord::min|::min$", min_u32),
             (r"^std::slice::from_raw_parts(?:_mut)?::<", from_raw_parts),
             (r"NonNull::<.*>::as_ptr$|NonNull::<.*>::cast::<|ptr::.*::cast::<", ident),
@@ -374,6 +399,54 @@ class Pool:
             obs.append(("and touches nothing else", (pres, q) == (pres0, q0)))
         return obs
 
+    def check_release(self, p):
+        """BufferPoolRoot::release (what Proactor drop runs before it drops the in-flight operations)"""
+        W, pool = self.mk_state(p)
+        I = self.interp(W)
+        pres0, ptrs0, q0 = self.snapshot(W)
+        root = Struct({0: Cell(Ref(W.shared_cell))})
+        r = I.run_to_end(I.call_fn(self.F("src/buffer_pool.rs", "release", "BufferPoolRoot"),
+                                   [Ref(Cell(root)), Ref(Cell(("driver",)))], p))
+        self.done(I)
+        inner_bufs = None
+        shared = W.shared_cell.v
+        inner = shared.f[0].v.f[0].v
+        for c in inner.f.values():
+            if isinstance(c.v, Slots):
+                inner_bufs = c.v
+        freed = [d[0] for d in W.deallocs]
+        obs = [("release succeeds on the fallback pool", isinstance(r, EnumV) and r.variant == 0)]
+        for i in range(self.N):
+            if pres0[i]:
+                obs.append(("release frees pooled buffer %d exactly once" % i, freed.count(("ptr", i)) == 1))
+            else:
+                obs.append(("release leaves buffer %d, held by a live handle, alone" % i, freed.count(("ptr", i)) == 0))
+        obs.append(("every deallocation uses the full buffer length", all(z3.is_true(z3.simplify(d[1] == W.size)) for d in W.deallocs)))
+        obs.append(("after release the pool has no slot that could take a buffer back (handles released later free "
+                    "their own memory)", inner_bufs is not None and len(inner_bufs.cells) == 0))
+        return obs
+
+    def check_drop_released(self, p):
+        """drop of a handle after BufferPoolRoot::release, while the root object itself still exists"""
+        W, pool = self.mk_state(p)
+        if not W.handles:
+            raise Infeasible()
+        ids = sorted(W.handles)
+        bid = ids[p.choose(len(ids), "which handle")]
+        # the released state: slot table gone, pooled buffers already freed
+        shared = W.shared_cell.v
+        inner = shared.f[0].v.f[0].v
+        for c in inner.f.values():
+            if isinstance(c.v, Slots):
+                c.v = Slots(0)
+        I = self.interp(W)
+        h = W.handles.pop(bid)
+        I.run_to_end(I.call_fn(self.F("src/buffer_pool.rs", "drop", "BufferRef"), [Ref(Cell(h))], p))
+        self.done(I)
+        return [("a handle dropped after the pool was released frees its own memory exactly once",
+                 len(W.deallocs) == 1 and W.deallocs[0][0] == ("ptr", bid)),
+                ("... with the full buffer length", len(W.deallocs) == 1 and z3.is_true(z3.simplify(W.deallocs[0][1] == W.size)))]
+
     def check_geometry(self, p):
         """set_capacity / set_len with symbolic arguments keep len <= cap <= full_cap; views match"""
         W, pool = self.mk_state(p)
@@ -433,5 +506,5 @@ class Pool:
         self.done(I)
         return self.well_formed(W, set(W.handles))
 
-    CHECKS = ["pop", "drop", "geometry"]
+    CHECKS = ["pop", "drop", "release", "drop_released", "geometry"]
     KF_CHECKS = ["public_take", "public_reset"]
